@@ -84,6 +84,16 @@ def gen_case(rng, tier):
         return {'kind': 'raw', 'twin': t.replace('TAG ', '').replace('TAG', ''), 'texts': texts}
     depth = rng.choice([2, 3, 4, 5])
     doc = gen.rand_doc(rng, depth, kinds=('s', 's', 's', 'i', 'f'), hostile=rng.random() < 0.6, width=rng.choice([2, 3, 4]))
+    if rng.random() < 0.3:
+        # several value-less entries in one container (implicit nulls: 'x:' / a bare '-'), equal scalars repeated side by side
+        conts = [n for _, n in emit.walk(doc) if n['t'] in ('map', 'seq')]
+        for c in rng.sample(conts, min(len(conts), rng.choice([1, 2]))):
+            rep = rng.choice([emit.S(None, nf=''), emit.S(None, nf=''), emit.S(None, nf='~'), emit.S(7), emit.S('same', style='dq'), emit.S(True)])
+            for j in range(rng.choice([2, 3])):
+                if c['t'] == 'map':
+                    c['items'].insert(rng.randrange(len(c['items']) + 1), [f'e{j}', dict(rep)])
+                else:
+                    c['items'].insert(rng.randrange(len(c['items']) + 1), dict(rep))
     if r < 0.14:
         # !notnew in a first document is by design an error
         d = gen.place_flags(rng, doc, p=0.2, notnew=False)
